@@ -159,4 +159,21 @@ CHECKS = {
             {"harness": "c11_kvcrash", "mode": "json", "flavour": "asan", "runs": {"quick": 1200, "thorough": 60000}, "wall": {"quick": 15, "thorough": 600}, "seed_off": 2},
         ],
     },
+    "C12": {
+        "level": "exploration",
+        "rule": ("sequential runs = one seeded history of 5-45 steps over 2-6 keys (incl. a key with an embedded NUL and keys that are prefixes of each other): set, set-with-TTL, "
+                 "setBatch (+TTL), remove, removeWithPrefix, clear, expireAt, persist, compact (explicit and through tiny log limits), clean close+reopen, and clock advances aimed "
+                 "at each pending expiry (1 ms before, exactly on, 1 ms after, far beyond) both as a sleep (wheel and eviction worker run) and as a wall-clock jump (nothing evicted "
+                 "yet); after EVERY step every read path (get, exists, keys, keysWithPrefix, size, getBatch, ttl) is compared with a reference map with absolute expiry at the same "
+                 "frozen instant; cache sizes 1-3; concurrent runs = 2-5 threads of get/set/set-with-TTL/remove on 1-3 keys with unique values racing the timing wheel, eviction "
+                 "worker and background compaction under a seeded schedule with stalls, checked for real-time-order consistency; non-trivial = at least one context switch"),
+        "real": ["iora::storage::KVStore incl. its TimingWheel, eviction worker and compaction thread", "the real file system (scratch directory)"],
+        "stub": COMMON_STUB,
+        "assumptions": ["sequential mode: simulated time does not advance inside an operation (step cost 0) and CLOCK_REALTIME is millisecond-aligned, so persisted (ms) and in-memory expiries coincide",
+                        "only forward clock movement"],
+        "jobs": [
+            {"harness": "c12_kvmodel", "mode": "seq", "flavour": "asan", "runs": {"quick": 7000, "thorough": 600000}, "wall": {"quick": 35, "thorough": 1800}, "seed_off": 1},
+            {"harness": "c12_kvmodel", "mode": "conc", "flavour": "asan", "runs": {"quick": 8000, "thorough": 800000}, "wall": {"quick": 15, "thorough": 900}, "seed_off": 2},
+        ],
+    },
 }
